@@ -31,7 +31,7 @@ impl Property for C14 {
     }
     fn rule(&self) -> String {
         "robots with shape (with/without base and tool, slim box bodies) x collision-free initial vectors (rejected ones counted) x from/to vectors (small offsets around the initial vector, and folded targets near +-3.1 rad that drive the forearm/tool into earlier links or the base) \
-         x optional joint limits x 0..2 environment boxes x safety tables (modes first/all) x rayon pools 1/4/16. Oracle: the twelve candidates filtered by oracle A and by the robot's own full collides(); compared as a multiset. \
+         x optional joint limits x 0..2 environment boxes x safety tables (modes first/all) x rayon pools 1/3/4/16. Oracle: the twelve candidates filtered by oracle A and by the robot's own full collides(); compared as a multiset. \
          Non-trivial: at least one candidate rejected for collision and at least one offered."
             .into()
     }
@@ -149,7 +149,7 @@ impl Property for C14 {
         let mut want: Vec<[u64; 6]> = expect.iter().map(key).collect();
         want.sort();
         let mut first: Option<Vec<[u64; 6]>> = None;
-        for threads in [1usize, 4, 16] {
+        for threads in [1usize, 3, 4, 16] {
             let got = in_pool(threads, || no_panic(|| robot.non_colliding_offsets(&c.initial, &c.from, &c.to))).map_err(|m| viol!("no panic", "non_colliding_offsets: {}", m))?;
             let mut g: Vec<[u64; 6]> = got.iter().map(key).collect();
             g.sort();
